@@ -404,17 +404,15 @@ def flow_rules(c, res, an):
                                 instance='%s: data_rate store preceded by channel_mask_validate' % fn)
     # next_lower_datarate only proposes region-defined rates
     bf = c.bf(D + 'mac::session::next_lower_datarate')
-    n_some = 0
-    for b in bf.body.blocks:
-        if b.cleanup:
-            continue
-        for si, st in enumerate(b.stmts):
-            if st.k == 'assign' and st.lhs.local == 0 and not st.lhs.proj and st.rv.k == 'agg' and st.rv.d.get('variant') == 'Some':
-                n_some += 1
-                res.require(guarded_by_call(bf, b.idx, 'get_datarate'), 'C04:next_lower_datarate:candidate-not-checked',
-                            'a candidate rate is returned without get_datarate(candidate).is_some()', short_site(bf, b.idx, si), 'DOM(get_datarate => return Some)',
-                            instance='next_lower_datarate returns only region-defined rates')
-    if n_some < 1:
+    sr = rules.search_returns(bf)
+    for r_ in sr:
+        def defined(x):
+            k_ = rules.option_known(x)
+            return k_ is not None and k_[1] and isinstance(k_[0], tuple) and k_[0][:1] == ('call',) and k_[0][1].endswith('get_datarate')
+        res.require(guarded_by_call(bf, r_['site'][0], 'get_datarate') if r_['form'] == 'loop' else any(defined(x) for x in r_['guards']), 'C04:next_lower_datarate:candidate-not-checked',
+                    'a candidate rate is returned without get_datarate(candidate).is_some()', short_site(bf, r_['site'][0], r_['site'][1]), 'DOM(get_datarate => return Some)',
+                    instance='next_lower_datarate returns only region-defined rates')
+    if len(sr) < 1:
         raise CheckError('anchor: next_lower_datarate has no `return Some(..)`')
     # ---- VALIDATE-BEFORE-WRITE(mask): every installation of a channel mask
     n_set = 0
@@ -549,18 +547,20 @@ def draw_covers_plan(c, res):
     bf = c.bf(fn)
     body = bf.body
     rets = [s for b in body.blocks if not b.cleanup and b.idx in bf.cfg.reach for s in b.stmts if s.k == 'assign' and s.lhs.is_local() and s.lhs.local == 0]
-    ok = len(rets) == 1 and rets[0].rv.k == 'bin' and rets[0].rv.d['op'] == 'BitAnd'
+    from ..layout import rv_term
+    # the draw: rng & mask, possibly widened before or after the masking
+    rt = rules.strip_widening(rv_term(bf, rets[0].rv)) if len(rets) == 1 else None
+    ok = rt is not None and rt[0] == 'BitAnd'
     why = 'the draw is not rng & mask'
     worst = None
     if ok:
-        ops = rets[0].rv.ops
-        ts = [term_of_operand(bf, o) for o in ops]
+        ts = [rt[1], rt[2]]
         rng_i = [i for i, t in enumerate(ts) if term_contains(t, lambda y: isinstance(y, tuple) and y[:1] == ('call',) and y[1].endswith('RngCore::next_u32'))]
         ok = len(rng_i) == 1
     if ok:
-        mop = ops[1 - rng_i[0]]
-        mt = ts[1 - rng_i[0]]
-        last = rules.find_in_term(('x',) + tuple(t for d in ([mt],) for t in d) + tuple(x[0] for b in body.blocks if b.idx in bf.cfg.reach for x in path_conditions(bf, b.idx)),
+        mt = rules.strip_widening(ts[1 - rng_i[0]])
+        cases = rules.value_cases(bf, mt)
+        last = rules.find_in_term(('x', mt) + tuple(x[0] for v_, cs_ in cases for x in cs_),
                                   lambda y: isinstance(y, tuple) and y[:1] == ('call',) and y[1].endswith('Option::unwrap') and term_contains(y, lambda z: isinstance(z, tuple) and z[:1] == ('call',) and z[1].endswith('Iterator::rposition')))
         ok = last is not None
         why = 'the index of the last defined channel (rposition(..).unwrap()) is not what selects the mask'
@@ -575,24 +575,17 @@ def draw_covers_plan(c, res):
                     n_slots = int(m_.group(1)) if m_.group(1).isdigit() else tables_const(c, m_.group(1))
         if n_slots is None:
             raise CheckError('anchor: size of DynamicChannelPlan.channels')
-        defs = defs_with_conditions(bf, mt[1]) if mt[0] == 'phi' else [(mt, path_conditions(bf, 0), 0)]
-        for v, conds, bb in defs:
+        for v, conds in cases:
+            v = rules.strip_widening(v)
             if v[0] != 'const':
                 ok, why = False, 'mask %s is not a constant' % term_str(v)
                 break
+            # the conditions under which this mask is chosen bound the last defined index: the largest bound they imply
             ub = n_slots - 1
-            for x in conds:
-                t = x[0]
-                if not (isinstance(t, tuple) and t[0] in ('Gt', 'Ge', 'Lt', 'Le') and t[2][0] == 'const'):
-                    continue
-                lin, k0 = linear(t[1])
-                if lin != {last: 1}:
-                    continue
-                k = t[2][1] - k0
-                if (t[0] == 'Gt' and cond_false(x)) or (t[0] == 'Le' and cond_true(x)):
-                    ub = min(ub, k)
-                elif (t[0] == 'Ge' and cond_false(x)) or (t[0] == 'Lt' and cond_true(x)):
-                    ub = min(ub, k - 1)
+            for k in range(n_slots - 1):
+                if rules.implies_order(conds, '<=', last, ('const', k)):
+                    ub = k
+                    break
             if ub > v[1] or (v[1] & (v[1] + 1)) != 0:
                 ok = False
                 why = 'with mask %d the last defined channel index can be as high as %d: that channel is never drawn' % (v[1], ub)
